@@ -230,8 +230,18 @@ def init_rule(ctx, p, K):
         ats = [a for a in v.atoms()] if isinstance(v, Poly) else []
         if len(ats) == 1 and ats[0][0] == "s" and ats[0][1].endswith("~") and v == Poly.atom(ats[0]):
             cname = ats[0][1][:-1]
-    ctx.ob(rule, f.key + ":index-array", ok and cname is not None, where=f, node=st[0].node if st else f.node, construct=repr(st[0])[:140] if st else "no store",
-           message="mask_index_array[a, b] must be assigned the running slim counter at the loop indices")
+    # equivalent vectorised numbering: index[U] = arange(count(U)) with U the boolean unmasked selector (numpy fills the True positions in row-major order)
+    vec = False
+    if not st:
+        m = Poly.sym("mask")
+        sels = [Poly.fn("logical_not", m), Poly.fn("invert", m)]
+        for s in S.stores:
+            if s.arr == "self.mask_index_array" and len(s.idx) == 1 and s.idx[0] in sels and isinstance(s.value, Poly) and s.op == "=" and not s.loops:
+                u = s.idx[0]
+                if s.value in [Poly.fn("arange", Poly.fn(c, u)) for c in ("sum", "count_nonzero")]:
+                    vec = True
+    ctx.ob(rule, f.key + ":index-array", vec or (ok and cname is not None), where=f, node=st[0].node if st else f.node, construct=repr(st[0])[:140] if st else "no store",
+           message="mask_index_array[a, b] must be assigned the running slim counter at the loop indices (or index[unmasked] = arange(count(unmasked)))")
     if cname:
         check_slim_counter(ctx, "C03.slim", S, cname, ["mask"], what="mask-index")
     i0 = None
